@@ -24,6 +24,7 @@ func sparkFunction(c *cli.Context) error {
 		sortRows   = c.String("sort-rows")
 		sortCols   = c.String("sort-cols")
 	)
+	helpers.NonNegativeOrFail(c, "num", "cols")
 
 	counter := aggregation.NewTable(delim)
 
